@@ -44,6 +44,8 @@ TRUSTED = ['hand-written model coq/Model/Transform.v tied to biom/table.py:3063-
            'compiled kernels are the shipped .so (Cython absent); when _transform.pyx differs from the pinned hash the harness runs '
            'the interpreted source instead (tools/decython.py); on the unchanged tree both are run on every case and must agree',
            'extraction (ExtrOcamlBasic only) + ocaml/driver_tail.ml, cross-checked against vm_compute on a sample']
+from . import regen as _regen
+regenerate = _regen.hook(TRUSTED, ['transform'])   # py2v: regenerate coq/Gen/* from the source first
 ASSUMPTIONS = ['functions are deterministic and return finite values (no NaN), -0.0 counts as zero as in scipy',
                'norm: non-negative dyadic values (multiples of 1/64), so every sum is exact in binary64 and positive when something is stored',
                'an in-place transform whose function returns a wrong-length array is outside the model (the receiver may be half transformed)']
